@@ -944,6 +944,8 @@ var sliceElems = []struct {
 	{"int64", "int", false}, {"LInt", "int", true}, {"int", "LInt", true}, {"ext.MInt", "LInt", true}, {"float64", "int", false}, {"string", "LStr", true}, {"LStr", "string", true},
 	{"string", "int", false}, {"int", "string", false}, {"LShape", "ext.Shape", true}, {"ext.Shape", "LShape", true}, {"string", "[]byte", false}, {"[]byte", "string", false},
 	{"*int", "*LInt", true}, {"[]int", "[]int", false},
+	// bytes (the one element type with a string shortcut) and element types one pointer level apart (never convertible)
+	{"byte", "byte", false}, {"uint8", "byte", false}, {"*LShape", "LShape", true}, {"LShape", "*LShape", true}, {"*int", "int", false}, {"int", "*int", false},
 }
 
 func (b *Builder) genSlice(ctx pairCtx, src, dst *SDecl, name string) {
